@@ -70,12 +70,12 @@ structure SVar where
   mode : Nat
   hist : Option Knots                -- `history(m)[canonical]`
   initDer : Option (Rat × Rat)       -- differentiated state: (nominal of `initial_der(v)`, `X[idx]`)
-deriving Repr
+deriving Repr, DecidableEq
 
 structure CIn where
   series : Knots
   mode : Nat
-deriving Repr
+deriving Repr, DecidableEq
 
 structure Prob where
   t0 : Rat
@@ -165,11 +165,14 @@ def Prob.derKnots (p : Prob) (name : String) (t : Rat) : List Rat :=
     | none => p.timesOf name
   else p.timesOf name
 
+/-- the dedicated initial-derivative entry of a differentiated state: (its nominal, `X[idx]`) -/
+def Prob.initDerOf (p : Prob) (name : String) : Option (Rat × Rat) :=
+  (p.svars.lookup (p.canon name).1).bind (·.initDer)
+
 /-- `der_at(variable, t, m)` -/
 def derAt (p : Prob) (name : String) (t : Rat) : Res :=
   let c := p.canon name
-  let special : Option (Rat × Rat) :=
-    if t = p.t0 then (p.svars.lookup c.1).bind (·.initDer) else none
+  let special : Option (Rat × Rat) := if t = p.t0 then p.initDerOf name else none
   match special with
   | some (nomD, xd) => .num (nomD * sgn c.2 * xd)
   | none =>
@@ -193,6 +196,21 @@ def hasTime (ks : Knots) (t : Rat) : Bool := ks.any (fun k => k.1 = t)
 def endPoint (p : Prob) (name : String) (t : Rat) : Option Knots :=
   ((stateAt p name t false true).toRat?).map (fun q => [(t, q)])
 
+/-- an end point is added only when it is not among the knots already collected
+    (`t0 not in times[indices] and t0 not in history_times[history_indices]`) -/
+def endKnot (p : Prob) (name : String) (inner : Knots) (t : Rat) : Option Knots :=
+  if hasTime inner t then some [] else endPoint p name t
+
+/-- the history knots `states_in` may draw on: needed (and required: `none` = the code raises)
+    only when the window starts before the first time stamp; the last history entry (`t0`) is
+    dropped; a negated alias sees the negated values (a copy: finding F13 repaired) -/
+def windowHist (v : SVar) (neg : Bool) (a first : Rat) : Option Knots :=
+  if a < first then
+    match v.hist with
+    | none => none
+    | some h => some (if neg then negKnots h.dropLast else h.dropLast)
+  else some []
+
 /-- `__states_times_in(variable, t0, tf, m)`: the knots `(t, x)`; `none` = the code raises
     (no history although the window starts before the first time stamp; the variable is not in
     the decision vector).  A window without any time stamp of the variable yields just the two
@@ -204,17 +222,11 @@ def statesTimesIn (p : Prob) (name : String) (a? b? : Option Rat) : Option Knots
   let b := b?.getD ((times.getLast?).getD 0)
   let v ← p.svars.lookup c.1
   let state : Knots := v.times.zip (v.xs.map (fun x => x * v.nominal * sgn c.2))
-  let hist : Knots ←
-    if a < times.headD 0 then
-      match v.hist with
-      | none => none
-      | some h => some (if c.2 then negKnots h.dropLast else h.dropLast)
-    else some []
-  let idx := inWindow a b state
-  let hidx := inWindow a b hist
-  let x0 ← if !hasTime idx a && !hasTime hidx a then endPoint p name a else some []
-  let xf ← if !hasTime idx b && !hasTime hidx b then endPoint p name b else some []
-  some (x0 ++ hidx ++ idx ++ xf)
+  let hist ← windowHist v c.2 a (times.headD 0)
+  let inner := inWindow a b hist ++ inWindow a b state
+  let x0 ← endKnot p name inner a
+  let xf ← endKnot p name inner b
+  some (x0 ++ inner ++ xf)
 
 /-- `states_in` -/
 def statesIn (p : Prob) (name : String) (a? b? : Option Rat) : Option (List Rat) :=
@@ -310,5 +322,23 @@ def SVar.resultKnots (v : SVar) (neg : Bool) : Knots := v.times.zip (v.signedRes
 
 /-- the history of a variable seen through an alias with the given sign -/
 def signedHist (neg : Bool) (h : Knots) : Knots := if neg then negKnots h else h
+
+end RtcVerif.C15
+
+namespace RtcVerif.C15
+open RtcVerif RtcVerif.Interp
+
+/-- how `states_in` decides on an end point: nothing is added when the end is already a knot of
+    the window, otherwise the `state_at` value there -/
+def EndOK (p : Prob) (name : String) (inner : Knots) (t : Rat) (x : Knots) : Prop :=
+  (hasTime inner t = true ∧ x = []) ∨
+  (hasTime inner t = false ∧ ∃ q, stateAt p name t false true = .num q ∧ x = [(t, q)])
+
+/-- the value `extract_results` reports for a constant input at a time stamp `t` of the variable:
+    `interpolate(times, series.times, series.values, first, last, mode)` (array form), seen
+    through the alias sign -/
+def ciExtracted (c : CIn) (neg : Bool) (t : Rat) : Out :=
+  let ks := if neg then negKnots c.series else c.series
+  interpCore c.mode ks (finFill (firstVal ks)) (finFill (lastVal ks)) t
 
 end RtcVerif.C15
